@@ -295,6 +295,11 @@ Definition spec_reply (nr nr6 : N) (qname : str) (qtype : N) (obs : outcome) : b
   | _ => false
   end.
 
+(* the same set of names (label lists), whatever the spelling *)
+Definition same_names (a b : list str) : bool :=
+  let na := names_of a in let nb := names_of b in
+  forallb (fun x => memn x nb) na && forallb (fun x => memn x na) nb.
+
 Definition spec_case (c : case) : bool :=
   match c with
   | CaseExists m wild w probes =>
@@ -346,7 +351,8 @@ Definition spec_case (c : case) : bool :=
               (set_survives ops)
   | CaseReload whitelist blocklist files mem_m mem_wild re_m re_wild re_w =>
       (* the reloaded list blocks exactly the names the memory that was persisted blocks *)
-      same_set (whitelist_of whitelist) re_w &&
+      (* the configured whitelist, as names: how the list spells its keys is its own business *)
+      same_names (whitelist_of whitelist) re_w &&
       spec_equiv re_w mem_m mem_wild re_m re_wild
   | CaseCrash whitelist old o limit local temps re_m re_wild old_m old_wild new_m new_wild =>
       let w := whitelist_of whitelist in
